@@ -339,6 +339,34 @@ func init() {
 		} else {
 			close(stop)
 		}
+		if o.boolean("drain") {
+			// a consumer that keeps reading after it asked to stop: whatever still arrives is a
+			// safe prime of the requested size, never a nil
+			deadline := time.Now().Add(time.Duration(o.int("wait")) * time.Millisecond)
+			for runtime.NumGoroutine() > base && time.Now().Before(deadline) {
+				select {
+				case x := <-ints:
+					if x == nil {
+						return "nil-delivered"
+					}
+					if x.BitLen() != bits || !safePrimeInd(x.Go()) {
+						return "bad-prime-delivered"
+					}
+				case <-errs:
+					return "err"
+				default:
+					time.Sleep(200 * time.Microsecond)
+				}
+			}
+			// what the workers left in the buffer on their way out
+			for len(ints) > 0 {
+				if x := <-ints; x == nil {
+					return "nil-delivered"
+				} else if x.BitLen() != bits || !safePrimeInd(x.Go()) {
+					return "bad-prime-delivered"
+				}
+			}
+		}
 		if waitGoroutines(base, time.Duration(o.int("wait"))*time.Millisecond) > 0 {
 			return "leak"
 		}
@@ -565,6 +593,18 @@ func genC16(g *Rng, tier string, emit func(Op)) {
 			"mode": "immediate", "bits": bits, "recvs": recvs, "workers": workers, "wait": 1500})
 		emit(Op{"op": "safeprime-stop", "class": "stop-by-send", "mode": "immediate", "send": true,
 			"bits": bits, "recvs": recvs, "workers": workers, "wait": 1500})
+		// stopped by sending one value (the documented alternative to closing, what keyproof's
+		// findSafePrime does), the consumer still reading: no worker stays, nothing invalid arrives
+		emit(Op{"op": "safeprime-stop", "class": "stop-by-send-drain", "key": "stop-by-send", "label": "clean", "mode": "immediate", "send": true, "drain": true,
+			"bits": bits, "recvs": recvs, "workers": workers, "wait": 2500})
+		emit(Op{"op": "safeprime-stop", "class": "stop-by-close-drain", "key": "stop-by-close", "label": "clean", "mode": "immediate", "drain": true,
+			"bits": bits, "recvs": recvs, "workers": workers, "wait": 2500})
+	}
+	// primes so large that no worker finds one before it is told to stop: the stop signal must
+	// reach the workers inside their search, whichever way it is given
+	for _, send := range []bool{true, false} {
+		emit(Op{"op": "safeprime-stop", "class": fmt.Sprintf("stop-large-send-%v", send), "key": "stop-large", "label": "clean", "nomodel": true, "mode": "immediate", "send": send,
+			"bits": 1536, "recvs": 0, "workers": workers, "wait": 8000})
 	}
 
 	nkw, ckw := 2, 300
